@@ -226,6 +226,20 @@ func TestCrashModel(t *testing.T) {
 	if len(st.Files) != 1 || string(st.Files[0].Data) != "AA" || st.Files[0].Durable != 2 {
 		t.Fatalf("after truncate/remove: %+v", st.Files)
 	}
+	// bytes written (and even synced) through a handle of an unlinked file are in no crash image
+	u, _ := OpenFile("/d/u", O_CREATE|O_WRONLY|O_APPEND, 0600)
+	Remove("/d/u")
+	u.Write([]byte("ghost"))
+	u.Sync()
+	for _, fc := range f.CrashState().Files {
+		if fc.Path == "/d/u" || strings.Contains(string(fc.Data), "ghost") {
+			t.Fatalf("unlinked file leaked into the crash state: %+v", fc)
+		}
+	}
+	if _, _, ok := f.FileState("/d/u"); ok || len(f.Names()) != 1 {
+		t.Fatalf("unlinked file still reachable by name: %v", f.Names())
+	}
+	st = f.CrashState()
 	// a new instance from an image is independent and fully durable
 	img := st.ImageWith(nil)
 	g := FromImage(img)
